@@ -180,7 +180,7 @@ def validate(batches, tag, parallel=2):
         name, sessions = item
         tf = W / f"{tag}-{name}.trace.ndjson"
         rows = [e for s in sessions for e in s]
-        vlib.ndjson_write(tf, rows)
+        vlib.ndjson_write(tf, rows, tla=True)
         r = vlib.tlc("TraceKernel", "TraceKernel.cfg", workers=1, dfs=True, env={"TRACE": str(tf)}, timeout=900,
                      heap="3g", name=f"tk-{tag}-{name}")
         verdicts = vlib.printed(r.out, "VERDICT")
